@@ -65,7 +65,10 @@ func parseCommand(c *updateContext, entry sm.Entry) (command, error) {
 	if err := cmd.UnmarshalVTUnsafe(entry.Cmd); err != nil {
 		return commandDummy{}, err
 	}
-	c.leaderIndex = cmd.LeaderIndex
+	// Keep the last leader index seen in the batch, entries without one must not erase it.
+	if cmd.LeaderIndex != nil {
+		c.leaderIndex = cmd.LeaderIndex
+	}
 	return wrapCommand(cmd), nil
 }
 
